@@ -94,7 +94,7 @@ def _has_body(d):
     return any(c.get("kind") == "CompoundStmt" for c in d.get("inner", []))
 
 
-def find_function(rel, qualname, nparams=None, param_types=None, kind=None):
+def find_function(rel, qualname, nparams=None, param_types=None, kind=None, type_contains=None):
     """the definition (with body) of `qualname` (e.g. 'Phreeqc::k_calc' or 'GetErrorString')"""
     short = qualname.split("::")[-1]
     docs = dump(rel, qualname)
@@ -115,6 +115,8 @@ def find_function(rel, qualname, nparams=None, param_types=None, kind=None):
         cands = [d for d in cands if len(ptypes(d)) == nparams]
     if param_types is not None:
         cands = [d for d in cands if ptypes(d) == list(param_types)]
+    if type_contains is not None:
+        cands = [d for d in cands if type_contains in d.get("type", {}).get("qualType", "")]
     # prefer definitions located in the TU itself
     if len(cands) > 1:
         uniq = {}
